@@ -1,6 +1,6 @@
 (* C10 -- property theorems only.  Proofs live in C10/Proofs1.v, Proofs2.v. *)
 From Coq Require Import NArith List Permutation.
-From DV Require Import Base.Outcome C10.Gen C10.Model C10.Proofs1 C10.Proofs2 C10.Proofs3 C10.Proofs4 C10.Proofs5 C10.Proofs6 C10.Proofs7 C10.Proofs8 C10.Proofs9.
+From DV Require Import Base.Outcome C10.Gen C10.Model C10.Proofs1 C10.Proofs2 C10.Proofs3 C10.Proofs4 C10.Proofs5 C10.Proofs6 C10.Proofs7 C10.Proofs8 C10.Proofs9 C10.Proofs10.
 From DV Require C09.Gen C09.Model C09.Proofs C17.Gen C17.Model.
 Import ListNotations.
 Local Open Scope N_scope.
@@ -377,3 +377,27 @@ Theorem C10_decide_no_panic : forall rq pr zs,
   (forall n c, pr = PData n c -> rq_qtype rq = 252 -> n = 0) -> decide rq pr zs <> DPanic.
 Proof. exact decide_no_panic. Qed.
 Print Assumptions C10_decide_no_panic.
+
+(* any sequence of good batches, each committed: the diffs the zone itself
+   reports, funnelled into one multi-step IXFR, batched, interpreted and applied
+   take a receiver at the first published content to the last one *)
+Theorem C10_real_diffs_transfer_identity : forall key_of bs pub ds pub' size limit chunks,
+  pub_ok pub = true -> ukeys pub -> keyed key_of pub ->
+  good_batches key_of bs pub ->
+  run_batches bs pub = Some (ds, pub') -> ds <> [] ->
+  let snew := d_new (last ds (mkDiff 0 [] 0 [])) in
+  (forall d, In d ds -> d_old d <> snew) ->
+  (forall r1 r2, size r1 + size r2 <= limit) ->
+  batch size limit (sender_hard false 251) (ixfr_seq snew ds) = Ok chunks ->
+  exists us st, run None (sender_msgs 251 chunks) = (us, SDone) /\
+    c10_apply (store_zone pub) us = Ok st /\ u_fin st = true /\
+    zeq (u_visible st) (store_zone pub').
+Proof. exact (real_diffs_transfer_identity updater_checks_batch_soa). Qed.
+Print Assumptions C10_real_diffs_transfer_identity.
+
+(* each of those diffs is the one the diff-capture model reports for its batch *)
+Theorem C10_batch_diff_is_reported : forall pub body s t,
+  good_body body (d_start pub) = true ->
+  snd (d_commit (batch_end (body, s, t) pub)) = last (c10_diff pub (body ++ [DFinish s t])) None.
+Proof. exact batch_diff_is_reported. Qed.
+Print Assumptions C10_batch_diff_is_reported.
